@@ -290,6 +290,10 @@ def classify(unit, data, diags, run):
                 props = unit.fns[fn]['props']
             else:
                 props = lemma_props(unit, fn, failing=True)
+        if (kind in ('arith', 'unreachable') or (kind == 'pre' and not sec_clause)) and aid_free_site(org) and 'C16' not in props:
+            # a site of the real code that can panic (failed assert! / unwrap / index / overflow / unreachable!): whatever else the
+            # function is claimed for, this is a failure of panic freedom
+            props = list(props) + ['C16']
         oid = '%s/%s/%s/%s' % (run.name, fn, kind, detail)
         if kind == 'recommends':
             continue
@@ -299,6 +303,11 @@ def classify(unit, data, diags, run):
         run.failures.append({'id': oid, 'props': props, 'kind': kind, 'message': msg, 'fn': fn, 'aid': aid,
                              'rendered': d.get('rendered', ''), 'repo': repo_loc, 'site': site_text(repo_loc),
                              'repo_fn': unit.fns.get(fn, {}).get('path'), 'repo_file': unit.fns.get(fn, {}).get('file')})
+
+
+def aid_free_site(org):
+    """the failing site is text of the repository (not a proof aid, not template text)"""
+    return org.get('k') not in ('clause', 'tmpl', 'probe')
 
 
 def site_text(repo_loc):
@@ -405,6 +414,7 @@ def aid_renames_from(unit, diags):
 
 
 AID_RENAMES = {}
+INLINE_FLIP = {}
 
 
 def build(name, inline=()):
@@ -412,6 +422,7 @@ def build(name, inline=()):
     unit.inline_names = set(inline)
     unit.tmpl_props = {}
     unit.aid_renames = dict(AID_RENAMES.get(name, {}))
+    unit.inline_flip = INLINE_FLIP.get(name, False)
     extract.process_template(unit, os.path.join(CONTRACTS, name + '.vrs'), PRELUDE)
     # per-lemma property tags: `proof fn name(..) //#C10,C02`
     for c in unit.chunks:
@@ -431,6 +442,7 @@ def build_late(name, inline=(), drop_aids=(), late=True):
     unit.tmpl_props = {}
     unit.late_hints = late
     unit.aid_renames = dict(AID_RENAMES.get(name, {}))
+    unit.inline_flip = INLINE_FLIP.get(name, False)
     unit.drop_aids = set(drop_aids)
     extract.process_template(unit, os.path.join(CONTRACTS, name + '.vrs'), PRELUDE)
     for c in unit.chunks:
@@ -451,6 +463,7 @@ def build_probe(name, inline=()):
     unit.probe = True
     unit.inline_names = set(inline)
     unit.aid_renames = dict(AID_RENAMES.get(name, {}))
+    unit.inline_flip = INLINE_FLIP.get(name, False)
     extract.process_template(unit, os.path.join(CONTRACTS, name + '.vrs'), PRELUDE)
     data = unit.finish()
     return unit, data
@@ -469,6 +482,12 @@ def run_unit(name, tier, want_probe=True):
         missing = unresolved_names(pre['diags'])
         missing -= inline
         if not missing:
+            if inline and not INLINE_FLIP.get(name) and any((d.get('code') or {}).get('code') == 'E0308' and 'vx_self' in json.dumps(d.get('spans', [])) for d in pre['diags'] if d.get('level') == 'error'):
+                # an inlined helper whose receiver binding has the wrong reference depth (the receiver variable was taken to
+                # hold a reference but names a place, or the other way round): the other reading is tried once
+                INLINE_FLIP[name] = True
+                unit, data = build(name, inline)
+                continue
             rn = aid_renames_from(unit, pre['diags'])
             if rn and rn != AID_RENAMES.get(name):
                 AID_RENAMES[name] = rn
